@@ -112,6 +112,15 @@ func (f *frame) loopEnv(li *loopInfo, phiVals map[*ssa.Phi]Val, st *State) *TEnv
 						return TV{v.loadCell(st, a, t, env.quiet()), t}, true
 					case AddrV:
 						return TV{v.loadField(st, a.Obj, a.T, a.Field, env.quiet()), t}, true
+					case StackAddrV:
+						cur, ok := st.stk[a.A]
+						if !ok {
+							continue
+						}
+						for _, i := range a.Path {
+							cur = cur.(*StructV).Get(i)
+						}
+						return TV{cur, t}, true
 					}
 					continue
 				}
@@ -274,6 +283,12 @@ func (v *FnVerifier) loopFrame(name string, s Sort, li *loopInfo, a Term) Term {
 				ins = append(ins, inLoc(ml, ar, "r"))
 			}
 		}
+	}
+	// local variables of this function (allocations whose address never escapes) are not
+	// part of the frame: loops may assign them freely and the invariants describe them
+	for _, lr := range v.localRefs {
+		// allocation ticks are unique, and sub-objects share their root's tick
+		ins = append(ins, fmt.Sprintf("(= (birth r) (birth %s))", lr.S))
 	}
 	return T(SBool, "(forall ((r Ref)) (! (=> (and (< (birth r) %s) (not (or %s false))) (= (select %s r) (select %s r))) :pattern ((select %s r))))",
 		li.preNow.S, strings.Join(ins, " "), a.S, pre.S, a.S)
